@@ -32,6 +32,9 @@ fn base_case(u: u128) -> BaseCase {
 
 impl Sub for Base {
     type Case = BaseCase;
+    fn restrictable(&self) -> bool {
+        true
+    }
     fn name(&self) -> &'static str {
         "base_sampler"
     }
@@ -91,6 +94,9 @@ fn ccs_strategy() -> BoxedStrategy<f64> {
 
 impl Sub for ApproxExp {
     type Case = ExpCase;
+    fn restrictable(&self) -> bool {
+        true
+    }
     fn name(&self) -> &'static str {
         "approx_exp"
     }
@@ -138,6 +144,9 @@ pub struct BerExp;
 
 impl Sub for BerExp {
     type Case = BerCase;
+    fn restrictable(&self) -> bool {
+        true
+    }
     fn name(&self) -> &'static str {
         "ber_exp"
     }
@@ -264,6 +273,9 @@ pub fn mu_strategy() -> BoxedStrategy<f64> {
 
 impl Sub for SamplerZ {
     type Case = ZCase;
+    fn restrictable(&self) -> bool {
+        true
+    }
     fn name(&self) -> &'static str {
         "sampler_z"
     }
@@ -409,6 +421,9 @@ const ALPHA: f64 = 1e-9;
 
 impl Sub for Distribution {
     type Case = DistCase;
+    fn restrictable(&self) -> bool {
+        true
+    }
     fn name(&self) -> &'static str {
         "sampler_distribution"
     }
